@@ -1665,13 +1665,162 @@ pub fn g_t(fmt: Fmt, r: &Recipe) -> Case {
 }
 
 // ---------------------------------------------------------------------------
+// G-S: significands at the carry boundary of Eisel-Lemire's second multiplication (f64).  With the normalised
+// significand W = w << lz and the 128-bit table entry T, the code forms A = W * T_hi, and - when the low 9 bits
+// of A >> 64 are all ones - B = W * T_lo, adding B >> 64 into A with a carry.  The carry happens iff
+// (W * T) mod 2^128 wraps; the inputs closest to that decision are those with (W * T) mod 2^137 just above 0
+// (carried, barely) or just below 2^137 (not carried, barely).  They are found exactly with the same
+// "smallest x with l <= a*x mod m <= r" solver as the lo == MAX search, per decimal exponent and per bit length
+// of w, for w of 15, 16, 17 and 19 decimal digits (15/16-digit ones are the shortest renderings of their floats,
+// which is how C03 reaches them).  Any approximation of the second product is wrong on these first.
+
+#[derive(Clone, Copy, Debug)]
+pub struct CarryHard {
+    pub w: u64,
+    pub q: i32,
+    pub digits: u32,
+    /// true: the product wrapped by a hair; false: it stopped a hair short
+    pub carried: bool,
+}
+
+fn solve_window_first(t: &Nat, m: &Nat, lo: &Nat, hi: &Nat, start: &Nat, end: &Nat) -> Option<Nat> {
+    use std::cmp::Ordering::*;
+    let (_, tm) = t.divrem(m);
+    let (_, c) = tm.mul(start).divrem(m);
+    let sub_mod = |v: &Nat| -> Nat {
+        if v.cmp(&c) != Less {
+            v.sub(&c)
+        } else {
+            v.add(m).sub(&c)
+        }
+    };
+    let (l, r) = (sub_mod(lo), sub_mod(hi));
+    let x = if l.cmp(&r) == Greater { Some(Nat::zero()) } else { min_mod_in_range(&tm, m, &l, &r, 0) }?;
+    let w = start.add(&x);
+    if w.cmp(end) == Less {
+        Some(w)
+    } else {
+        None
+    }
+}
+
+pub fn lemire_carry_table() -> &'static Vec<CarryHard> {
+    use std::sync::OnceLock;
+    static T: OnceLock<Vec<CarryHard>> = OnceLock::new();
+    T.get_or_init(|| {
+        let mut out = Vec::new();
+        for q in -342..=308i32 {
+            let (hi, lo) = crate::props::c14::lemire_entry(q);
+            let t = Nat::from_u128(((hi as u128) << 64) | lo as u128);
+            for digits in [15u32, 16, 17, 19] {
+                let dlo = 10u64.pow(digits - 1);
+                let dhi = if digits == 19 { 9_999_999_999_999_999_999 } else { 10u64.pow(digits) - 1 };
+                if digits <= 15 && (-22..=22).contains(&q) {
+                    continue; // fast path
+                }
+                let (blo, bhi) = (64 - dlo.leading_zeros() as u64, 64 - dhi.leading_zeros() as u64);
+                for b in blo..=bhi {
+                    let lz = 64 - b;
+                    let start = (1u64 << (b - 1)).max(dlo);
+                    let end = if b == 64 { dhi } else { ((1u64 << b) - 1).min(dhi) };
+                    if start > end {
+                        continue;
+                    }
+                    let mbits = 137 - lz;
+                    let m = Nat::pow2(mbits);
+                    // window sized for about two solutions in [2^(b-1), 2^b)
+                    let width = mbits - (b - 1) + 1;
+                    let wnd = Nat::pow2(width);
+                    let (s, e) = (Nat::from_u64(start), Nat::from_u128(end as u128 + 1));
+                    if let Some(w) = solve_window_first(&t, &m, &Nat::zero(), &wnd.sub(&Nat::one()), &s, &e) {
+                        out.push(CarryHard { w: w.to_u64().unwrap(), q, digits, carried: true });
+                    }
+                    if let Some(w) = solve_window_first(&t, &m, &m.sub(&wnd), &m.sub(&Nat::one()), &s, &e) {
+                        out.push(CarryHard { w: w.to_u64().unwrap(), q, digits, carried: false });
+                    }
+                }
+            }
+        }
+        out
+    })
+}
+
+/// Independent re-check of every table entry with plain u128 arithmetic (harness self-test).
+pub fn validate_carry_table() -> Result<usize, String> {
+    let t = lemire_carry_table();
+    for e in t.iter() {
+        let (hi, lo) = crate::props::c14::lemire_entry(e.q);
+        let lz = e.w.leading_zeros();
+        let wn = (e.w << lz) as u128;
+        let a = wn * hi as u128;
+        let b = wn * lo as u128;
+        let low_sum = (a & 0xffff_ffff_ffff_ffff) + (b >> 64); // < 2^65
+        let carry = (low_sum >> 64) as u128;
+        let bits_128_137 = (((a >> 64) + carry) & 0x1ff) as u64;
+        let low128_top = (low_sum & 0xffff_ffff_ffff_ffff) as u64; // bits [64,128) of the full product
+        // carried: the product mod 2^137 is tiny; not carried: it is just below 2^137
+        // the search window was 2^(137 - b + 2) wide for a b-bit significand: the word below bit 128 is below 2^(76 - b)
+        let b = 64 - lz as u64;
+        let lim = 1u64 << (76 - b).min(63);
+        let ok = if e.carried { bits_128_137 == 0 && low128_top < lim } else { bits_128_137 == 0x1ff && low128_top > u64::MAX - lim };
+        if !ok {
+            return Err(format!("carry table entry {:?} does not have the claimed product shape (bits [128,137) = {:#x}, next word {:#x})", e, bits_128_137, low128_top));
+        }
+        let d = e.w.to_string().len() as u32;
+        if d != e.digits {
+            return Err(format!("carry table entry {:?} has {} digits", e, d));
+        }
+    }
+    Ok(t.len())
+}
+
+pub fn g_s(r: &Recipe) -> Case {
+    let t = lemire_carry_table();
+    if t.is_empty() {
+        return g_d(Fmt::F64, r);
+    }
+    let e = t[pick(r.sel[1], t.len())];
+    let mut int = e.w.to_string().into_bytes();
+    let variant = if e.carried { "second product barely carries" } else { "second product barely does not carry" };
+    // the exact significand, or (19 digits) followed by truncated digits
+    if e.digits == 19 && r.k[0] % 3 == 0 {
+        let n = 1 + (r.k[1] as usize) % 40;
+        let mut frac: Vec<u8> = vec![b'0'; n];
+        frac.push(b'1' + (r.k[2] % 9) as u8);
+        return Case { int, frac, exp: e.q, family: "G-S Lemire carry boundary", variant, layout: "split", expect: None };
+    }
+    // layout: integer with exponent, or the point moved inside
+    if r.k[0] % 3 == 1 && int.len() > 1 {
+        let k = 1 + (r.k[3] as usize) % (int.len() - 1);
+        let frac = int.split_off(k);
+        let moved = frac.len() as i32;
+        let frac = {
+            let mut f = frac;
+            while f.last() == Some(&b'0') {
+                f.pop();
+            }
+            f
+        };
+        return Case { int, frac, exp: e.q + moved, family: "G-S Lemire carry boundary", variant, layout: "split", expect: None };
+    }
+    Case { int, frac: vec![], exp: e.q, family: "G-S Lemire carry boundary", variant, layout: "integer-only", expect: None }
+}
+
+// ---------------------------------------------------------------------------
 // mixtures
 
 /// The C01/C02 mixture: G-B 35, G-C 20, G-A 15, G-D 7, G-E 10, G-F 6, G-G 7.
 pub fn mixed(fmt: Fmt, r: &Recipe, lim: Limits) -> Case {
-    match pick_w(r.sel[0], &[31, 20, 14, 7, 10, 6, 7, 1, 1, 1, 1, 1]) {
+    match pick_w(r.sel[0], &[30, 20, 13, 7, 10, 6, 7, 1, 1, 1, 1, 1, 2]) {
         10 => g_r(fmt, r, lim),
         11 => g_t(fmt, r),
+        12 => {
+            if fmt == Fmt::F64 {
+                g_s(r)
+            } else {
+                g_d(fmt, r)
+            }
+        }
         0 => g_b(fmt, r, lim),
         1 => g_c(fmt, r, lim),
         2 => g_a(fmt, r, lim),
